@@ -1803,6 +1803,32 @@ def denom_variants(k, tier):
         g.gm = True
         g.defines = ['AVM_MUL_UF']
         out.append(g)
+    if d['vec'] and t.W > 1 and t.bits == 64 and not t.signed and k.family == 'denom_div' and 'sh1' in dict(k.S[d['dct']]):
+        # 64-bit lanes, unsigned: same lane-wise code-level contract (modulo L3; q * d through vpmullq or the L1 emulation)
+        g = copy.copy(k)
+        pn, pd = d['pn']
+        S = k.S
+        sh1t = T(dict(S[d['dct']])['sh1'], S)
+        if sh1t.kind == 'mask':
+            g.requires = [sh1t.wf('(%s).sh1' % pd)]
+            sh1v = lambda i: sh1t.view('(%s).sh1' % pd, i)
+        else:
+            g.requires = ['%s <= 1' % sh1t.lane('(%s).sh1' % pd, i) for i in range(t.W)]
+            sh1v = lambda i: '(%s != 0)' % sh1t.lane('(%s).sh1' % pd, i)
+        # every lane's post-shift is a valid shift amount (it is l - sh1 < 64 in any constructed object); the SSE2 per-lane
+        # shift emulation is only specified for amounts up to the element width (C04)
+        g.requires = list(g.requires) + ['%s < 64' % t.lane('(%s).sh2' % pd, i) for i in range(t.W)]
+        g.ensures = [('div lane %d evaluates the Granlund-Montgomery expression of its lane' % i,
+                      'spec_gm_div_u64_lane_ok(%s, %s, %s, %s, %s, %s, %s)' % (
+                          t.lane('(%s).quot' % RV, i), t.lane('(%s).rem' % RV, i), t.lane(pn, i), t.lane('(%s).m' % pd, i),
+                          sh1v(i), t.lane('(%s).sh2' % pd, i), t.lane('(%s).d' % pd, i))) for i in range(t.W)]
+        g.harness = {'pre': ['%s a0;' % d['nct'], '%s a1;' % d['dct']], 'args': ['a0', 'a1']}
+        g.extra_roots = []
+        g.part = 'GM expression per lane, all n, all field values'
+        g.partial = None
+        g.gm = True
+        g.defines = ['AVM_MUL_UF']
+        out.append(g)
     if d['vec'] and t.W > 1 and t.bits == 32 and not t.signed and k.family == 'denom_div':
         # lane-wise code-level contract (modulo-lemma L3): for every field value, every lane of div evaluates the
         # Granlund-Montgomery expression of THAT lane's fields (lanes independent, divisors may differ per lane)
